@@ -48,6 +48,7 @@ class VT:
     self.horizon = None
     self.exc = None
     self.real = None
+    self.vthread = None
     self.points = 0
 
   def __repr__(self):
@@ -345,6 +346,36 @@ class Scheduler:
     return dict((t.name, t.what) for t in self.threads if t.started and not t.finished and t.pred)
 
 
+def vcurrent_thread():
+  """Stand-in for threading.current_thread inside miros modules."""
+  s = CUR
+  if s is None or s.current is None or getattr(s.current, "vthread", None) is None:
+    return _threading.current_thread()
+  return s.current.vthread
+
+
+def guarded_run(s, body, repo_dir=None):
+  """s.run(body), with exceptions that come out of miros code (an API call made by the body
+  raised) turned into PropertyViolation; anything else is a harness error."""
+  from .common import PropertyViolation, HarnessBound, REPO
+  import os
+  root = os.path.join(repo_dir or REPO, "miros") + os.sep
+  try:
+    return s.run(body)
+  except (Deadlock, StepLimit, PropertyViolation, HarnessBound):
+    raise
+  except Exception as e:
+    tb = e.__traceback__
+    in_miros = False
+    while tb is not None:
+      if tb.tb_frame.f_code.co_filename.startswith(root):
+        in_miros = True
+      tb = tb.tb_next
+    if in_miros:
+      raise PropertyViolation("a call into miros raised %s: %s" % (type(e).__name__, e), "raised-by-miros")
+    raise
+
+
 def sched():
   if CUR is None:
     raise RuntimeError("virtual primitive used outside a scheduler run")
@@ -375,6 +406,8 @@ class VThread:
     self._name = str(value)
     if self._vt is not None:
       self._vt.name = self._name
+      if self._vt.real is not None:
+        self._vt.real.name = self._name
 
   @property
   def daemon(self):
@@ -418,7 +451,8 @@ class VThread:
       finally:
         sys.settrace(None)
         s.finish_current(vt)
-    vt.real = _threading.Thread(target=boot, daemon=True, name="vt-%s" % self._name)
+    # the OS thread carries the virtual thread's name, so threading.current_thread().name agrees
+    vt.real = _threading.Thread(target=boot, daemon=True, name=self._name)
     vt.real.start()
     vt.started = True
     s.point()
@@ -714,7 +748,8 @@ def install(fresh=False):
   import miros.singleton as sg
   import miros.hsm as hsm
   subst = {threading.Thread: VThread, threading.Event: VEvent, queue.Queue: VQueue,
-           queue.PriorityQueue: VPriorityQueue, threading.RLock: VRLock, threading.Lock: VLock}
+           queue.PriorityQueue: VPriorityQueue, threading.RLock: VRLock, threading.Lock: VLock,
+           threading.current_thread: vcurrent_thread}
   for mod in (ao, tsa, ev, sg, hsm):
     for k, v in list(vars(mod).items()):
       for real, virt in subst.items():
